@@ -109,6 +109,7 @@ func checkAll(keys []int) {
 }
 
 func main() {
+	ev.GuardFor("C15")
 	r := ev.Start("C15")
 	e = &enum.E{R: r}
 	ternLen := ev.Pick(r, 8, 10)
